@@ -157,9 +157,39 @@ def gen_supersede(rng, k):
     return L
 
 
+def gen_udp_wait_write(rng, k):
+    """a udp socket whose send queue is more than half full (11 MB handed to send_to at one instant),
+    async_wait(wait_write) deferred on it, then: let it expire, cancel, close, destroy, or wait again"""
+    r = rng
+    net = ncommon.Net(r, nnodes=2, bw=0, lat=r.choice([0, 1000000]))
+    L = list(net.lines)
+    ops = ["udp_new 1 1", "udp_open 1 1", "udp_bind 1 0 0 5000", "udp_new 2 2", "udp_open 2 1", "udp_bind 2 0 0 6000",
+           "repeat %d udp_send 1 0 %d 6000 : %d 65000" % (r.choice([170, 200]), ncommon.A1 + 1, r.randrange(1000)),
+           "udp_wait_write 1 100"]
+    how = r.choice(["expire", "cancel", "close", "destroy", "again", "again_cancel"])
+    H = {}
+    if how in ("again", "again_cancel"):
+        ops.append("udp_wait_write 1 101")
+    if how in ("cancel", "again_cancel"):
+        ops.append("udp_cancel 1")
+    elif how in ("close", "destroy"):
+        ops += ["expires_at 7 %d" % r.choice([0, 1000000, 90000000]), "async_wait 7 102"]
+        H[102] = ["udp_%s 1" % how]
+    L += ["M " + o for o in ops]
+    for h in sorted(H):
+        L += ["H %d %s" % (h, o) for o in H[h]]
+    L.append("M run")
+    return L
+
+
 def generate(rng, tier):
     n = 50 if tier == "quick" else 1500
     ns = 20 if tier == "quick" else 400
+    nw = 3 if tier == "quick" else 40
+    return generate1(rng, tier, n, ns) + [("ww%d" % k, gen_udp_wait_write(rng, k)) for k in range(nw)]
+
+
+def generate1(rng, tier, n, ns):
     return generate0(rng, tier, n) + [("s%d" % k, gen_supersede(rng, k)) for k in range(ns)]
 
 
@@ -182,7 +212,7 @@ def handler_oracle(lines, trace):
                 fails.append(("c04/twice", "handler %d invoked twice" % f[0]))
             seen.add(f[0])
     ev, comp = timeline(lines, trace)
-    START = {"tcp_connect": (1, 5), "tcp_write": (1, 2), "tcp_read": (1, 2), "tcp_wait": (1, 2), "tcp_write_all": (1, 5),
+    START = {"udp_wait_write": (1, 2), "tcp_connect": (1, 5), "tcp_write": (1, 2), "tcp_read": (1, 2), "tcp_wait": (1, 2), "tcp_write_all": (1, 5),
              "tcp_read_all": (1, 3), "accept": (1, 4), "accept2": (1, 3), "udp_arecv": (1, 3), "udp_wait": (1, 2)}
     started = []
     for e in ev:
@@ -195,7 +225,7 @@ def handler_oracle(lines, trace):
         elif op[0] == "resolve":
             started.append(("rslv", int(op[1]), int(op[-1]), e["t"], op[0]))
     # an operation superseded by a later one of its kind on the same object completes (aborted)
-    SUP = {"accept": "acc", "accept2": "acc", "udp_arecv": "udprecv", "udp_wait": "udpwait"}
+    SUP = {"accept": "acc", "accept2": "acc", "udp_arecv": "udprecv", "udp_wait": "udpwait", "udp_wait_write": "udpwaitw"}
     for i, e in enumerate(ev):
         op = e["op"]
         if op[0] in SUP:
